@@ -165,9 +165,14 @@ class BfsMixin:
     bfs_quick = [(1, 2, 1, 1), (2, 2, 2, 1), (1, 3, 1, 1)]
     bfs_thorough = [(1, 2, 1, 1), (2, 2, 2, 2), (1, 3, 1, 1), (1, 3, 1, 2)]
 
+    bfs_small = [(1, 2, 1, 1), (2, 2, 2, 1)]
+    bfs_thorough_light = [(1, 2, 1, 1), (2, 2, 2, 2), (1, 3, 1, 1)]
+
     def bfs_histories(self, tier):
         self._bfs = []
-        for (n, cap, nl, nd) in (self.bfs_quick if tier == "quick" else self.bfs_thorough):
+        plan = {"quick": self.bfs_quick, "thorough": self.bfs_thorough, "small": self.bfs_small,
+                "thorough_light": self.bfs_thorough_light}[tier]
+        for (n, cap, nl, nd) in plan:
             h = bfs_tour(n, cap, nl, nd, 400000 if tier == "quick" else 2500000)
             self._bfs.append(h)
         return list(self._bfs)
@@ -198,7 +203,7 @@ class C02(BfsMixin, SpecProp):
     assumptions = ["the limits and preconditions are judged by preb (proved equivalent to pre, C02_limits_decided) on the reference run"]
 
     def generate(self, rng, tier):
-        return self.bfs_histories(tier) + self.core_mix(rng, tier, 2500, 150000, "c02-")
+        return self.bfs_histories(tier) + self.core_mix(rng, tier, 2500, 60000, "c02-")
 
     def search(self, rng, tier, diverging):
         return self.core_mix(rng, "quick", 12000, 12000, "c02s-")
@@ -232,8 +237,8 @@ class C01(SpecProp):
     assumptions = ["'linked through the history of bind calls' = connected in the undirected graph of all bind(v1,v2) calls issued so far on that graph"]
 
     def generate(self, rng, tier):
-        hs = self.core_mix(rng, tier, 2000, 120000, "c01-")
-        n = 300 if tier == "quick" else 20000
+        hs = self.core_mix(rng, tier, 2000, 50000, "c01-")
+        n = 300 if tier == "quick" else 10000
         for i in range(n):
             hs.append(multi_history(rng.fork(), "c01-multi%d" % i))
         return hs
@@ -254,7 +259,9 @@ class C01(SpecProp):
                     u = UnionFind()
                     u.p = dict(uf[src].p)
                     uf[dst], unread[dst], endpoint[dst] = u, set(unread[src]), set(endpoint[src])
-                hd = dst
+                else:
+                    uf.pop(dst, None)
+                continue       # the destination handle now names another graph: nothing was removed from anything
             if hd not in uf:
                 continue
             s0, s1 = before.get(hd), after.get(hd)
@@ -355,7 +362,7 @@ class C03(SpecProp):
             "overwritten or a collection happens before a read; distinct = distinct final state")
 
     def generate(self, rng, tier):
-        n = 2500 if tier == "quick" else 150000
+        n = 2500 if tier == "quick" else 60000
         hs = []
         w = {"kid": 14, "kids": 10, "data": 20, "put": 18, "bind": 30}
         for i in range(n):
@@ -514,6 +521,8 @@ class C05(SpecProp):
                         return {"reason": "%s created vertex %d, an id next_id() had already handed out" % (k, v),
                                 "index": i, "expected": "fresh id", "observed": il[i][:300]}
                 if k == "MERGE":
+                    handed.setdefault(hd, set()).update(new)     # merge() obtains the ids of the vertices it creates from next_id()
+                if k == "MERGE":
                     # ids taken inside merge are handed out by the same allocator
                     for v in range(s0["next"], s1["next"]):
                         if slot(s0, v)["branch"] == 0:
@@ -562,8 +571,40 @@ def alloc_merge_history(rng, hid):
     ops += ["NEW r %d" % cap, "ADD r 0", "ADD r 1", "BIND r 0 1 %s" % gen.lab_alpha(rng.below(2))]
     if n > 1:
         ops += ["ADD r 2", "BIND r 0 2 %s" % gen.lab_alpha(5)]
-    ops += ["MERGE g r 0 0", "NEXT g", "SCRIPT g %s" % "ADD($x); BIND(0, $x, foo); ADD($y);".encode().hex(), "NEXT g", "KEYS g"]
+    if rng.chance(1, 4):
+        return alloc_join_history(rng, hid)
+    if rng.chance(1, 3):
+        # a right graph with an unreachable vertex: merge() creates vertices and then returns Err; the ids stay handed out,
+        # also after the created vertices have been collected
+        ops += ["ADD r 5", "MERGE g r 0 0", "KEYS g", "PUT g 0 V01", "DATA g 0", "KEYS g", "NEXT g", "NEXT g", "KEYS g"]
+    else:
+        ops += ["MERGE g r 0 0", "NEXT g", "SCRIPT g %s" % "ADD($x); BIND(0, $x, foo); ADD($y);".encode().hex(), "NEXT g", "KEYS g"]
     return History(hid, n, ops, {"cap": cap, "n": n})
+
+
+def alloc_join_history(rng, hid):
+    """an earlier merge() that unified two left vertices (the right graph reaches one vertex along two paths mapped to
+    different left vertices): the store has a removed slot from then on.  The model does not cover that merge (Unmodelled,
+    the comparison stops there); the property's own oracle still judges every later next_id() on the implementation's
+    snapshots.  No collection afterwards (the unchanged code keeps the removed id in its group's member list)."""
+    cap = rng.pick([16, 24, 40])
+    a, b, c, d, e = (gen.lab_alpha(i) for i in range(5))
+    ops = ["NEW g %d" % cap, "ADD g 0", "ADD g 1", "BIND g 0 1 %s" % a, "ADD g 2", "BIND g 1 2 %s" % b,
+           "NEW r %d" % cap, "ADD r 0", "ADD r 4", "BIND r 0 4 %s" % c, "ADD r 3", "BIND r 0 3 %s" % a,
+           "BIND r 4 3 %s" % d, "ADD r 5", "BIND r 3 5 %s" % e, "MERGE g r 0 0", "KEYS g"]
+    # explicit ids at and around the allocator position, then next_id() calls
+    for _ in range(rng.pick([2, 4, 8])):
+        k = rng.below(4)
+        if k == 0:
+            ops.append("NEXT g")
+        elif k == 1:
+            ops.append("ADD g %d" % rng.pick([4, 5, 6, 7, 8, 9]))
+        elif k == 2:
+            ops += ["NEXT g", "NEXT g"]
+        else:
+            ops += ["ADD g %d" % rng.pick([5, 6, 7, 8]), "NEXT g"]
+    ops += ["NEXT g", "KEYS g"]
+    return History(hid, 16, ops, {"cap": cap, "n": 16, "join": True})
 
 
 # ------------------------------------------------------------------ C06
@@ -700,9 +741,7 @@ class C04(BfsMixin, _props.C04):
 
     def generate(self, rng, tier):
         hs = _props.C04.generate(self, rng, tier)
-        if tier == "thorough":
-            hs = self.bfs_histories(tier) + hs
-        return hs
+        return self.bfs_histories("thorough_light" if tier == "thorough" else "small") + hs
 
 
 class C01T(C01):
@@ -713,12 +752,10 @@ def _with_bfs(cls):
     class X(BfsMixin, cls):
         def generate(self, rng, tier):
             hs = cls.generate(self, rng, tier)
-            if tier == "thorough":
-                hs = self.bfs_histories(tier) + hs
-            return hs
+            return self.bfs_histories("thorough_light" if tier == "thorough" else "small") + hs
     X.__name__ = cls.__name__
     X.pid = cls.pid
     return X
 
 
-REGISTRY.update({c.pid: c for c in [_with_bfs(C01), C02, _with_bfs(C03), C04, C05, C06, C10]})
+REGISTRY.update({c.pid: c for c in [_with_bfs(C01), C02, _with_bfs(C03), C04, _with_bfs(C05), C06, C10]})
